@@ -40,12 +40,9 @@ func (n *chaosNet) Dial(ctx context.Context, network, addr string) (net.Conn, er
 		case <-up:
 		}
 	}
-	var d net.Dialer
-	raw, err := d.DialContext(ctx, network, addr)
-	if err != nil {
-		return nil, err
-	}
-	cc := &chaosConn{Conn: raw}
+	// The TCP connection is opened by the first Write (the transport header): a client that gives
+	// up between connect and header would otherwise kill tgtest's accept loop (fake-server artefact).
+	cc := &chaosConn{network: network, addr: addr}
 	cc.cond = sync.NewCond(&cc.mu)
 	n.mu.Lock()
 	n.dials++
@@ -101,21 +98,36 @@ func (n *chaosNet) KillAll() {
 //	Blackhole(): Write reports success but the bytes are lost.
 //	Kill(): closes the socket (both directions).
 type chaosConn struct {
-	net.Conn
-	mu        sync.Mutex
-	cond      *sync.Cond
-	hold      bool
-	pass      int
-	blackhole bool
-	killed    bool
-	blocked   int // writes that ever blocked in hold
-	swallowed int // writes swallowed by the black hole
-	writes    int
+	network, addr string
+	mu            sync.Mutex
+	cond          *sync.Cond
+	raw           net.Conn // nil until the first Write
+	hold          bool
+	pass          int
+	blackhole     bool
+	killed        bool
+	blocked       int // writes that ever blocked in hold
+	swallowed     int // writes swallowed by the black hole
+	writes        int
 }
+
+var errChaosClosed = &net.OpError{Op: "write", Net: "tcp", Err: net.ErrClosed}
 
 func (c *chaosConn) Write(p []byte) (int, error) {
 	c.mu.Lock()
 	c.writes++
+	if c.raw == nil && !c.killed {
+		d := net.Dialer{Timeout: 20 * time.Second}
+		raw, err := d.Dial(c.network, c.addr)
+		if err != nil {
+			c.killed = true
+			c.cond.Broadcast()
+			c.mu.Unlock()
+			return 0, err
+		}
+		c.raw = raw
+		c.cond.Broadcast()
+	}
 	if c.hold && !c.killed {
 		if c.pass > 0 {
 			c.pass--
@@ -131,15 +143,28 @@ func (c *chaosConn) Write(p []byte) (int, error) {
 		c.mu.Unlock()
 		return len(p), nil
 	}
+	raw := c.raw
 	c.mu.Unlock()
-	return c.Conn.Write(p)
+	if raw == nil {
+		return 0, errChaosClosed
+	}
+	return raw.Write(p)
 }
 
 // Read passes through; once the read side reports the connection dead (peer
 // closed / reset) writes stuck in the link are released, as a kernel fails or
 // completes pending writes of a reset connection.
 func (c *chaosConn) Read(p []byte) (int, error) {
-	n, err := c.Conn.Read(p)
+	c.mu.Lock()
+	for c.raw == nil && !c.killed {
+		c.cond.Wait()
+	}
+	raw := c.raw
+	c.mu.Unlock()
+	if raw == nil {
+		return 0, &net.OpError{Op: "read", Net: "tcp", Err: net.ErrClosed}
+	}
+	n, err := raw.Read(p)
 	if ne, ok := err.(net.Error); err != nil && !(ok && ne.Timeout()) {
 		c.mu.Lock()
 		c.killed = true
@@ -161,23 +186,55 @@ func (c *chaosConn) Blackhole() {
 	c.mu.Unlock()
 }
 
-func (c *chaosConn) Kill() {
+func (c *chaosConn) shut() error {
 	// Close first: a write released from the hold must find the socket already dead.
-	_ = c.Conn.Close()
 	c.mu.Lock()
-	c.killed = true
-	c.cond.Broadcast()
+	raw := c.raw
 	c.mu.Unlock()
-}
-
-// Close is what the client calls; it also releases held writes.
-func (c *chaosConn) Close() error {
-	err := c.Conn.Close()
+	var err error
+	if raw != nil {
+		err = raw.Close()
+	}
 	c.mu.Lock()
 	c.killed = true
 	c.cond.Broadcast()
+	// A connect racing with shut: close whatever got opened meanwhile.
+	if c.raw != nil && c.raw != raw {
+		_ = c.raw.Close()
+	}
 	c.mu.Unlock()
 	return err
+}
+
+// Kill is the harness's kill switch: closes the socket (both directions).
+func (c *chaosConn) Kill() { _ = c.shut() }
+
+// Close is what the client calls; it also releases held writes.
+func (c *chaosConn) Close() error { return c.shut() }
+
+func (c *chaosConn) withRaw(f func(net.Conn) error) error {
+	c.mu.Lock()
+	raw, killed := c.raw, c.killed
+	c.mu.Unlock()
+	if raw != nil {
+		return f(raw)
+	}
+	if killed {
+		return &net.OpError{Op: "set", Net: "tcp", Err: net.ErrClosed}
+	}
+	return nil
+}
+
+func (c *chaosConn) LocalAddr() net.Addr  { return &net.TCPAddr{IP: net.IPv4(127, 0, 0, 1)} }
+func (c *chaosConn) RemoteAddr() net.Addr { return &net.TCPAddr{IP: net.IPv4(127, 0, 0, 1)} }
+func (c *chaosConn) SetDeadline(t time.Time) error {
+	return c.withRaw(func(r net.Conn) error { return r.SetDeadline(t) })
+}
+func (c *chaosConn) SetReadDeadline(t time.Time) error {
+	return c.withRaw(func(r net.Conn) error { return r.SetReadDeadline(t) })
+}
+func (c *chaosConn) SetWriteDeadline(t time.Time) error {
+	return c.withRaw(func(r net.Conn) error { return r.SetWriteDeadline(t) })
 }
 
 func (c *chaosConn) counters() (blocked, swallowed, writes int) {
